@@ -303,8 +303,9 @@ def extra_suffixes(prop):
 
 # statement files of another property whose theorems this property's decision
 # rules rest on as well (C03P: the time and user-agent rules translated from
-# the Go AST - rotation and backstop are C04's and C05's, staleness is C01's)
-SHARED_STATEMENTS = {"C01": ["C03P"], "C04": ["C03P"], "C05": ["C03P"], "C06": ["C03P"]}
+# the Go AST - rotation and backstop are C04's and C05's, staleness is C01's;
+# C06P: the remote-address block and the look-up guard len(id) == 24, C02's)
+SHARED_STATEMENTS = {"C01": ["C03P", "C06P"], "C02": ["C06P"], "C04": ["C03P"], "C05": ["C03P"], "C06": ["C03P"]}
 
 
 def run_property(chk, prop, note=None):
